@@ -132,6 +132,35 @@ func runValid(c *core.Case) {
 			c.Violation("ascii.valid", "input-modified", "bytes before the slice changed", nil)
 		}
 	}
+	// the same slice with its capacity reaching to the end of the buffer (what a window into a
+	// larger document looks like), the bytes behind and before it taking each interesting value:
+	// the answer depends on s[:len(s)] alone
+	wide := page[64+A : 64+A+L]
+	for _, sv := range []byte{0xff, 0x80, 0x7f, 0x5f, 0x1f, 0x00, 'a'} {
+		for i := 0; i < 64+A; i++ {
+			page[i] = sv
+		}
+		for i := 64 + A + L; i < 64+A+L+64; i++ {
+			page[i] = sv
+		}
+		evalWide := func(p int, v byte) {
+			wv, wp := refValid(s), refValidPrint(s)
+			check("Valid|wide-cap", ascii.Valid(wide), wv, p, v)
+			check("ValidPrint|wide-cap", ascii.ValidPrint(wide), wp, p, v)
+			check("ValidString|neighbours", ascii.ValidString(bstr(s)), wv, p, v)
+			check("ValidPrintString|neighbours", ascii.ValidPrintString(bstr(s)), wp, p, v)
+		}
+		evalWide(-1, sv)
+		if L > 0 {
+			for _, v := range deviants {
+				for _, p := range []int{0, L / 2, L - 1} {
+					s[p] = v
+					evalWide(p, v)
+					s[p] = fill
+				}
+			}
+		}
+	}
 	c.Count("evaluations.predicate", n)
 	c.Distinct(core.Mix(uint64(L), uint64(A)), L > 0)
 	c.Digest(fmt.Sprintf("L%d.A%d", L, A), h)
@@ -411,7 +440,7 @@ func errstr(e error) string {
 func init() {
 	core.Register(&core.Monitor{
 		Prop:    "C20",
-		Rule:    "valid-sweep: one case per (length, start alignment) of a slice inside a page-aligned buffer whose surroundings have the opposite classification; inside a case every position x every deviating value (all 256 values for lengths<=80, 7 boundary values above) is evaluated for Valid/ValidString/ValidPrint/ValidPrintString against byte-wise loops. fold-sweep: one case per (length, position); all 128x128 ASCII byte pairs (or the 768 letter-focused pairs) at that position for EqualFold/HasPrefixFold/HasSuffixFold and String variants plus the -1/0/+1 length relations and arguments that are views of one buffer sharing their start or their end (either one the longer). byte-rune: all 256 bytes and every rune. json-fastpath: strings/keys with one deviating byte at each position vs encoding/json. A case is distinct by its (length, alignment|position) and non-trivial when length>0. Every answer is folded into a per-case hash that must be equal in the default and purego builds.",
+		Rule:    "valid-sweep: one case per (length, start alignment) of a slice inside a page-aligned buffer whose surroundings have the opposite classification (then again with the capacity reaching to the end of the buffer and the neighbouring bytes set to 0xff/0x80/0x7f/0x5f/0x1f/0x00/'a'); inside a case every position x every deviating value (all 256 values for lengths<=80, 7 boundary values above) is evaluated for Valid/ValidString/ValidPrint/ValidPrintString against byte-wise loops. fold-sweep: one case per (length, position); all 128x128 ASCII byte pairs (or the 768 letter-focused pairs) at that position for EqualFold/HasPrefixFold/HasSuffixFold and String variants plus the -1/0/+1 length relations and arguments that are views of one buffer sharing their start or their end (either one the longer). byte-rune: all 256 bytes and every rune. json-fastpath: strings/keys with one deviating byte at each position vs encoding/json. A case is distinct by its (length, alignment|position) and non-trivial when length>0. Every answer is folded into a per-case hash that must be equal in the default and purego builds.",
 		Trusted: []string{"byte-wise reference loops in mon/c20 (transcribed from the statement)", "encoding/json (go1.23.5) for the dependent JSON fast path"},
 		Subs: []core.Sub{
 			{Name: "valid-sweep", N: func(t core.Tier) int { d := validDims(t); return (d.maxLen + 1) * d.maxAlign }, Run: runValid},
